@@ -563,6 +563,14 @@ def std_trait(engine, st, ty, tyb, tb, method, args, dest_ty, trait=None):
             raise _PathEnds()
         items = s.items if isinstance(s, VecV) else s.fields
         return RefV(Cell(VecV(items[lo:hi])), 0)
+    if tb in ('Index', 'IndexMut') and method in ('index', 'index_mut') and type(deref_all(args[0])).__name__ == 'AMapV':
+        # HashMap's Index: `map[&key]` panics when the key is absent
+        got = amap_method(engine, st, 'get', args, None)
+        if z3.is_false(opt_is_some(got)):
+            st.panic_if(z3.BoolVal(True), 'HashMap index: key not found')
+            st.ended = 'panic'
+            raise _PathEnds()
+        return got.payload[1][0]
     if tb in ('Index', 'IndexMut') and method in ('index', 'index_mut'):
         s = seq_of(args[0])
         i = args[1].concrete() if isinstance(args[1], IV) else None
@@ -879,6 +887,12 @@ def iterator_method(engine, st, method, args, dest_ty):
 def std_path(engine, st, name, args, dest_ty):
     segs = name.split('::')
     last = segs[-1]
+    # ---- bool::then / then_some
+    if '<impl bool>' in name and last in ('then', 'then_some'):
+        b = deref_all(args[0])
+        if engine.split_bool(st, b.t):
+            return mk_option(True, engine.call_closure(st, args[1], []) if last == 'then' else args[1], ty=dest_ty)
+        return mk_option(False, ty=dest_ty)
     # ---- f64 intrinsics: `core::f64::<impl f64>::max`
     if '<impl f64>' in name and isinstance(deref_all(args[0]), FP):
         import symex as _sx
@@ -1122,6 +1136,11 @@ def option_method(engine, st, method, args, dest_ty):
             return mk_option(False, ty=dest_ty)
         r = engine.call_closure(st, args[1], [o.payload[1][0]])
         return r if method == 'and_then' else mk_option(True, r, ty=dest_ty)
+    if method == 'flatten':
+        some = engine.split_bool(st, opt_is_some(o))
+        if not some:
+            return mk_option(False, ty=dest_ty)
+        return option_arg(o.payload[1][0])
     if method == 'map_or':
         some = engine.split_bool(st, opt_is_some(o))
         if not some:
